@@ -170,6 +170,15 @@ _asn1f_foreach_unparsed_union(const asn1p_constraint_t *ct_union,
             }
             continue;
         }
+        if(ct2->type == ACT_EL_TYPE || ct2->type == ACT_CA_SET) {
+            /*
+             * A reference to another object set (possibly resolved
+             * already). Its objects are added when the reference is
+             * resolved; the objects written in place next to it
+             * must not be lost.
+             */
+            continue;
+        }
         return -1;
     }
 
